@@ -36,12 +36,12 @@ UNWRAP_TABLE = {
 }
 
 
-def r1_pairing(ctx, F):
+def r1_pairing(ctx, F, rule="C07.R1"):
     wcs = F.one(r"Evaluator::<'v, 'a, 'e>::with_call_stack$")
     push = calls_by_name(wcs, PUSH)
     pop = calls_by_name(wcs, POP)
     if len(push) != 1 or not pop:
-        ctx.bad("C07.R1", "with_call_stack:anchor", "anchor-missing: expected one push and a pop in with_call_stack",
+        ctx.bad(rule, "with_call_stack:anchor", "anchor-missing: expected one push and a pop in with_call_stack",
                 fn=wcs)
     else:
         cont, _ = branch_edges(F, wcs, [push[0].dest_local], "Continue")
@@ -49,17 +49,17 @@ def r1_pairing(ctx, F):
         ok_targets = [t for (_, t) in cont]
         good = bool(ok_targets) and all(
             not (set(wcs.returns()) & wcs.reach([t], cut_blocks={c.bb for c in pop})) for t in ok_targets)
-        ctx.check(good, "C07.R1", "with_call_stack:pop-on-every-path",
+        ctx.check(good, rule, "with_call_stack:pop-on-every-path",
                   "every normal path from the Continue edge of push to return passes CheapCallStack::pop",
                   "a path from a successful push to return skips CheapCallStack::pop (frame leaked after a call)",
                   fn=wcs, line=push[0].line)
         # exactly once: no path pop -> pop
         twice = any(set(c2.bb for c2 in pop) & wcs.after(c.bb) for c in pop)
-        ctx.check(not twice, "C07.R1", "with_call_stack:pop-at-most-once",
+        ctx.check(not twice, rule, "with_call_stack:pop-at-most-once",
                   "no normal path pops twice", "a path pops the call stack twice", fn=wcs)
         # failed push must not pop
         bad_brk = any(set(c.bb for c in pop) & wcs.reach([t]) for (_, t) in brk)
-        ctx.check(bool(brk) and not bad_brk, "C07.R1", "with_call_stack:no-pop-after-failed-push",
+        ctx.check(bool(brk) and not bad_brk, rule, "with_call_stack:no-pop-after-failed-push",
                   "the Break edge of push (stack overflow) returns without pop",
                   "the failed-push path pops a frame it never pushed", fn=wcs)
 
@@ -67,10 +67,10 @@ def r1_pairing(ctx, F):
     push = calls_by_name(em, PUSH)
     pop = calls_by_name(em, POP)
     if len(push) != 1 or len(pop) != 1:
-        ctx.bad("C07.R1", "eval_module:anchor", "anchor-missing: expected one push and one pop in eval_module", fn=em)
+        ctx.bad(rule, "eval_module:anchor", "anchor-missing: expected one push and one pop in eval_module", fn=em)
     else:
         good = em.must_pass(push[0].bb, [pop[0].bb], em.returns())
-        ctx.check(good, "C07.R1", "eval_module:no-return-between-push-and-pop",
+        ctx.check(good, rule, "eval_module:no-return-between-push-and-pop",
                   "no normal path from push to return avoids pop ('do NOT use ? from now on')",
                   "an early return (`?`) between call_stack.push and call_stack.pop leaves a frame on the stack",
                   fn=em, line=push[0].line)
@@ -80,13 +80,13 @@ def r1_pairing(ctx, F):
         good = bool(writes) and em.must_pass(pop[0].bb - 0, writes, em.returns()) if pop[0].bb not in writes else True
         # the write sits in the block following pop: evaluate from push
         good = bool(writes) and em.must_pass(push[0].bb, writes, em.returns())
-        ctx.check(good, "C07.R1", "eval_module:module_def_info-restored",
+        ctx.check(good, rule, "eval_module:module_def_info-restored",
                   "module_def_info is written back on every normal path from push to return",
                   "a path from push to return does not restore module_def_info", fn=em)
 
     af = [f for f in F.find(r"starlark::eval::bc::frame::alloca_frame::\{closure#0\}$")]
     if len(af) != 1:
-        ctx.bad("C07.R1", "alloca_frame:anchor", "anchor-missing: alloca_frame closure not found")
+        ctx.bad(rule, "alloca_frame:anchor", "anchor-missing: alloca_frame closure not found")
     else:
         f = af[0]
         pushes = [c for c in f.calls if re.search(r"Vec::<T, A>::push$|Vec::<T>::push$", c.name)]
@@ -94,13 +94,13 @@ def r1_pairing(ctx, F):
         cfw = [st for st in f.stmts if st.lhs.endswith("{eval::runtime::evaluator::Evaluator::current_frame}")
                and st.bb not in f.cleanup]
         if len(pushes) != 1 or not pops:
-            ctx.bad("C07.R1", "alloca_frame:anchor", "anchor-missing: frame_stack push/pop not found", fn=f)
+            ctx.bad(rule, "alloca_frame:anchor", "anchor-missing: frame_stack push/pop not found", fn=f)
         else:
-            ctx.check(f.must_pass(pushes[0].bb, [c.bb for c in pops], f.returns()), "C07.R1",
+            ctx.check(f.must_pass(pushes[0].bb, [c.bb for c in pops], f.returns()), rule,
                       "alloca_frame:frame_stack-pop", "frame_stack.pop post-dominates the push",
                       "a normal path from frame_stack.push to return skips frame_stack.pop", fn=f)
             after = [st.bb for st in cfw if st.bb in f.after(pushes[0].bb) or st.bb == pushes[0].target]
-            ctx.check(bool(after) and f.must_pass(pushes[0].bb, after, f.returns()), "C07.R1",
+            ctx.check(bool(after) and f.must_pass(pushes[0].bb, after, f.returns()), rule,
                       "alloca_frame:current_frame-restored",
                       "current_frame is written back on every normal path after the continuation",
                       "a path after the continuation does not restore eval.current_frame", fn=f)
@@ -109,10 +109,10 @@ def r1_pairing(ctx, F):
     allowed = {wcs.uid, em.uid}
     for kind, pat in (("push", PUSH), ("pop", POP)):
         sites = callers(F, pat)
-        ctx.floor("C07.R1", "CheapCallStack::%s call sites" % kind, len(sites), 2)
+        ctx.floor(rule, "CheapCallStack::%s call sites" % kind, len(sites), 2)
         for f, c in sites:
             t = top_fn(F, f)
-            ctx.check(t.uid in allowed, "C07.R1", "who-may-%s:%s" % (kind, t.qpath),
+            ctx.check(t.uid in allowed, rule, "who-may-%s:%s" % (kind, t.qpath),
                       "CheapCallStack::%s called from the pairing function" % kind,
                       "CheapCallStack::%s called outside with_call_stack/eval_module: the push/pop pairing is no "
                       "longer enforced in one place" % kind, fn=f, line=c.line)
